@@ -42,7 +42,7 @@ def cases(ctx):
     rng = ctx.rng
     # dns/rdtypes directory vs. the model's table of types with a specific codec
     msgs = []
-    n_small = ctx.n(110, 5000)
+    n_small = ctx.n(110, 1400)
     for i in range(n_small):
         origin = None
         if rng.random() < 0.3:
@@ -55,7 +55,7 @@ def cases(ctx):
             am = g.gen_query_like(rng, origin, rng.choice(["small", "small", "medium", "medium", "large"]))
             kind = "query"
         msgs.append((kind, am, origin))
-    for i in range(ctx.n(3, 40)):
+    for i in range(ctx.n(3, 15)):
         origin = None if rng.random() < 0.7 else [b"big", b"example", b""]
         msgs.append(("big", g.gen_big(rng, origin), origin))
     msgs += builder_messages(rng)
@@ -85,7 +85,7 @@ def cases(ctx):
             yield "parse:mutated", [2, bytes(mw), origin, 16]
     # low-level Renderer sequences (TooBig caught by the caller, more records with the same owner
     # afterwards): the compression table must not keep entries of rolled-back octets
-    for i in range(ctx.n(100, 3000)):
+    for i in range(ctx.n(100, 1200)):
         origin = None if rng.random() < 0.8 else [b"o", b"example", b""]
         mid, flags, ms, ops = g.gen_rseq(rng, origin)
         yield "rseq", [7, origin, mid, flags, ms, ops]
@@ -93,12 +93,12 @@ def cases(ctx):
     for w in hostile_wires():
         yield "parse:hostile", [2, w, None, 16]
     # rcode / opcode / EDNS packing
-    for _ in range(ctx.n(150, 4000)):
+    for _ in range(ctx.n(150, 2000)):
         flags = rng.choice([0, 0xFFFF, rng.randrange(65536)])
         ef = rng.choice([0, 0xFFFFFFFF, rng.randrange(2**32)])
         v = rng.choice([0, 15, 16, 4095, 4096, -1, rng.randrange(4096), rng.randrange(16), rng.randrange(256)])
         yield "flags", [3, flags, ef, v]
-    for _ in range(ctx.n(60, 1500)):
+    for _ in range(ctx.n(60, 600)):
         am = g.gen_query_like(rng, None, "small")
         am[2] = [[], [], [], []]
         am[4] = None
